@@ -158,14 +158,8 @@ class ClassWorld:
         sc = self.sc
         K = sc["classes"]
         eff, flagged, kind = [], [], []
-        # `murky`: the plain functions of the bases and the class's own definitions are registered on ONE function
-        # by `__prepare__` / the class dict; when two of them have the same signature the older one is pushed down a
-        # tiebreak and stays reachable through call_next (finding D21's territory), whereas an own definition REPLACES
-        # an inherited one of the same signature: no single flat method set describes that, the oracle skips it
-        self.murky = []
         for i, k in enumerate(K):
             own = list(k["defs"])
-            self.murky.append(any(self.murky[b] for b in k["bases"]))
             if k["mixin"] and own:
                 own = own[-1:]
             inh = [(b, eff[b]) for b in k["bases"] if eff[b] is not None]
@@ -178,14 +172,10 @@ class ClassWorld:
                     if flagged[b]:
                         base = overlay(sc, base, eff[b])
                 plains = [b for b in k["bases"] if kind[b] == "plain"]
-                sigs_here = [sig_of(sc, d) for b in plains for d in eff[b]] + [sig_of(sc, d) for d in own]
-                if len(set(sigs_here)) != len(sigs_here):
-                    self.murky[i] = True
-                if own and k["extend"]:
-                    base = overlay(sc, base, own[:1])
+                # ... then the plain functions of the bases, then the body's own definitions on top
                 for b in plains:
                     base = overlay(sc, base, eff[b])
-                base = overlay(sc, base, own[1:] if (own and k["extend"]) else own)
+                base = overlay(sc, base, own)
                 eff.append(base); flagged.append(False); kind.append("ovld")
             elif own and k["extend"] and not k["mixin"]:
                 base = []
@@ -323,9 +313,6 @@ def evaluate(seed, n):
             o17["n"] += 1
             if not b["self_ok"]:
                 o17["viol"].append({"law": "a body was entered with another object than the instance as self", "class": ci, "arg": ai, "scenario": desc})
-            if cw.murky[ci]:
-                bump("documented-set oracle skipped: same signature registered twice on one merged function")
-                continue
             if eff[ci] is None:
                 if b["o"] != ["noattr"]:
                     o17["viol"].append({"law": "a class without definitions and without inherited definitions has the method", "class": ci, "impl": b["o"], "scenario": desc})
